@@ -104,9 +104,17 @@ fn corpus(rng: &mut ChaChaRng) -> Vec<(&'static str, Vec<u8>)> {
             timeout_time: 1_000_000, source_channel: "channel-0".parse().unwrap(), fee_asset: denom("nria"), memo: String::new(), bridge_address: None, use_compat_address: false,
         })],
     ];
+    let mut bodies = bodies;
+    bodies.extend(more_bodies(&key));
     for (n, actions) in bodies.into_iter().enumerate() {
         if let Ok(body) = TransactionBody::builder().actions(actions).chain_id("test").nonce(n as u32).try_build() {
-            out.push(("transaction", body.sign(&key).into_raw().encode_to_vec()));
+            let raw = body.sign(&key).into_raw();
+            // the signed payload on its own: mutated and then signed again by the harness, so that the mutant passes the
+            // signature check and reaches the per-action conversions and checks (entry "transaction_resigned")
+            if let Some(any) = &raw.body {
+                out.push(("transaction_resigned", any.value.to_vec()));
+            }
+            out.push(("transaction", raw.encode_to_vec()));
         }
     }
     for (h, nrollups, with_deposit) in [(1u32, 0usize, false), (2, 1, false), (3, 3, true), (4, 2, true)] {
@@ -150,6 +158,44 @@ fn corpus(rng: &mut ChaChaRng) -> Vec<(&'static str, Vec<u8>)> {
         }
     }
     out
+}
+
+/// Single-action bodies for the action kinds the first list does not contain (one action group per transaction).
+fn more_bodies(key: &SigningKey) -> Vec<Vec<Action>> {
+    use astria_core::protocol::{
+        fees::v1::FeeComponents,
+        transaction::v1::action::{
+            BridgeSudoChange,
+            BridgeTransfer,
+            CurrencyPairsChange,
+            FeeChange,
+            IbcRelayerChange,
+            IbcSudoChange,
+            RecoverIbcClient,
+            SudoAddressChange,
+        },
+    };
+    let _ = key;
+    let client = |n: u64| ibc_types::core::client::ClientId::new(ibc_types::core::client::ClientType::new("07-tendermint".to_string()), n).unwrap();
+    vec![
+        vec![Action::SudoAddressChange(SudoAddressChange { new_address: addr(11) })],
+        vec![Action::IbcSudoChange(IbcSudoChange { new_address: addr(12) })],
+        vec![Action::IbcRelayerChange(IbcRelayerChange::Addition(addr(13)))],
+        vec![Action::IbcRelayerChange(IbcRelayerChange::Removal(addr(14)))],
+        vec![Action::FeeChange(FeeChange::Transfer(FeeComponents::new(3, 4)))],
+        vec![Action::FeeChange(FeeChange::RollupDataSubmission(FeeComponents::new(u128::MAX, 1)))],
+        vec![Action::FeeAssetChange(FeeAssetChange::Removal(denom("denom-b")))],
+        vec![Action::BridgeSudoChange(BridgeSudoChange { bridge_address: addr(15), new_sudo_address: Some(addr(16)), new_withdrawer_address: None, fee_asset: denom("nria"), disable_deposits: true })],
+        vec![Action::BridgeTransfer(BridgeTransfer { to: addr(17), amount: 12, fee_asset: denom("nria"), destination_chain_address: "0xdef".into(), bridge_address: addr(18), rollup_block_number: 9, rollup_withdrawal_event_id: "evt".into() })],
+        vec![Action::RecoverIbcClient(RecoverIbcClient { client_id: client(0), replacement_client_id: client(1) })],
+        vec![Action::CurrencyPairsChange(CurrencyPairsChange::Addition(vec!["BTC/USD".parse().unwrap(), "ETH/USD".parse().unwrap()]))],
+        vec![Action::CurrencyPairsChange(CurrencyPairsChange::Removal(vec!["BTC/USD".parse().unwrap()]))],
+        vec![
+            Action::Transfer(Transfer { to: addr(1), amount: 0, asset: denom("ibc/0011223344556677889900112233445566778899001122334455667788990011"), fee_asset: denom("nria") }),
+            Action::BridgeLock(BridgeLock { to: addr(3), amount: u128::MAX, asset: denom("a/b/c/d"), fee_asset: denom("nria"), destination_chain_address: String::new() }),
+            Action::RollupDataSubmission(RollupDataSubmission { rollup_id: RollupId::new([0; 32]), data: vec![1u8; 1].into(), fee_asset: denom("nria") }),
+        ],
+    ]
 }
 
 // ---- independent re-verification of the inclusion proofs an accepted block carries ("proofs verify against the header")
@@ -281,6 +327,17 @@ fn decode(entry: &str, bytes: &[u8]) -> String {
                     }
                 }
             }
+        }
+        "transaction_resigned" => {
+            // `bytes` is a (mutated) TransactionBody encoding; sign it as a client would and hand the result to the decoder
+            let key = SigningKey::from([0x42; 32]);
+            let sig = key.sign(bytes);
+            let raw = rawtx::Transaction {
+                signature: sig.to_bytes().to_vec().into(),
+                public_key: key.verification_key().to_bytes().to_vec().into(),
+                body: Some(pbjson_types::Any { type_url: <rawtx::TransactionBody as prost::Name>::type_url(), value: bytes.to_vec().into() }),
+            };
+            decode("transaction", &raw.encode_to_vec())
         }
         "sequencer_block" => {
             let Ok(raw) = rawblock::SequencerBlock::decode(bytes) else { return "err".into() };
